@@ -34,7 +34,7 @@ def plan(tier, seed):
 
 
 def unit_timeout(tier):
-    return 400 if tier == "quick" else 900
+    return 180 if tier == "quick" else 900
 
 
 def floors(tier):
